@@ -56,6 +56,9 @@ def gen_program(rng, nclasses=None):
         for j in range(0 if holder else rng.randrange(1, 4)):
             static = rng.random() < 0.5
             c.methods.append(MethodSpec(c.name, rng.choice(["m", "run", "shared"]) + str(j), rng.choice(["V", "I"]), rng.choice([(), ("I",), ("J", "I")]), static))
+            # any legal combination of the remaining method flags (methods with code): final, synchronized, strictfp, synthetic, bridge, varargs ...
+            c.methods[-1].extra_flags = rng.choice([0, 0, 0, W.ACC_FINAL, W.ACC_SYNCHRONIZED, W.ACC_STRICT, W.ACC_SYNTHETIC, W.ACC_BRIDGE | W.ACC_SYNTHETIC, W.ACC_VARARGS,
+                                                    W.ACC_DECLARED_SYNCHRONIZED, W.ACC_STRICT | W.ACC_FINAL, W.ACC_SYNTHETIC | W.ACC_STRICT])
         if holder:
             classes.append(c)
             continue
@@ -153,6 +156,9 @@ def gen_program(rng, nclasses=None):
                     t = rng.choice([k.name for k in classes] + ["Lext/E;", "[I", "[[J", "[Lr/K0;", "[Lext/E;", "Ljava/lang/String;", "[[Lr/K0;", "[[[Lext/E;", "[[Lr/K1;", "[Lr/K1;", "Lext/package-info;", "[Lext/-$$Lambda$E$1;", "Lext/my-lib/X;"])
                     ins = ("const-class", rng.randrange(8), W.Typ(t))
                     site = ("const-class", "const-class", t)
+                elif r < 0.97 and all_methods:
+                    # invoke-custom takes a CALL-SITE index (not a method index): whatever method happens to have that index is not called
+                    ins = rng.choice([("invoke-custom", [rng.randrange(8)], rng.randrange(0, 6)), ("invoke-custom/range", rng.randrange(8), 1, rng.randrange(0, 6))])
                 else:
                     ins = rng.choice([("nop",), ("const/4", 0, 1), ("const-wide", 0, 12345678901)])
                 m.insns.append(ins)
@@ -174,5 +180,5 @@ def to_model(classes):
         for nm, ty in c.ifields:
             k.add_field(nm, ty, W.ACC_PUBLIC)
         for m in c.methods:
-            k.add_method(m.name, m.ret, m.params, (W.ACC_STATIC if m.static else 0) | (W.ACC_CONSTRUCTOR if m.name.startswith("<") else W.ACC_PUBLIC), W.Code(16, sum(2 if p in "JD" else 1 for p in m.params) + (0 if m.static else 1), 4, m.insns))
+            k.add_method(m.name, m.ret, m.params, (W.ACC_STATIC if m.static else 0) | (W.ACC_CONSTRUCTOR if m.name.startswith("<") else W.ACC_PUBLIC) | getattr(m, "extra_flags", 0), W.Code(16, sum(2 if p in "JD" else 1 for p in m.params) + (0 if m.static else 1), 4, m.insns))
     return model
